@@ -104,6 +104,9 @@ func main() {
 				*seed = 1
 			}
 		}
+		if *tier == "thorough" && *selft == 24 {
+			*selft = 300
+		}
 		if *wall == 0 {
 			if *tier == "quick" {
 				*wall = 150 * time.Second
